@@ -168,3 +168,12 @@ Example pinned_counters_miss_the_record :
   | _ => False
   end.
 Proof. vm_compute. split; reflexivity. Qed.
+
+(* hence every later selection from that state is still closed downwards over the files that hold records *)
+Theorem selection_closed_after_failed_fsync c s k v s' t sel0 : Inv s -> failed_fsync true s k v = ROk (s', t) ->
+  select c s' = ROk sel0 ->
+  forall id g, mem id sel0 = true -> has_file (log_of_dir (s_dir s')) g = true -> g <= id -> mem g sel0 = true.
+Proof.
+  intros HI Hf Hsel. apply (rows_make_selection_closed c s' sel0); [|exact Hsel].
+  exact (failed_fsync_keeps_rows s k v s' t HI Hf).
+Qed.
